@@ -121,6 +121,12 @@ class SymStr:
 
     def _eq(s, o):
         if isinstance(o, SymStr):
+            if (s.lossy or o.lossy) and s.lossy == o.lossy and s.enc == o.enc and \
+               len(s.items) == len(o.items):
+                # lossy decoding is a function of the bytes: identical bytes give identical text
+                same = core.mkbytes(s.items) == core.mkbytes(o.items)
+                if same is True:
+                    return True
             if s.lossy or o.lossy or s.enc != o.enc:
                 raise Unsupported("comparison of lossy / differently coded symbolic strings")
             if len(s.items) != len(o.items):
